@@ -58,6 +58,13 @@ def _assignments(fn, var, stop_value=False):
             if _var_id(n["c"][0]) == var:
                 r = _unwrap(n["c"][1])
                 out.append((n, r.get("k") == "CXXBoolLiteralExpr" and bool(r.get("v")) == stop_value))
+        elif n.get("k") == "CompoundAssignOperator" and len(n.get("c") or []) == 2 and _var_id(n["c"][0]) == var:
+            # `updated |= true` / `finished &= false` raise the flag; other compound forms are neither
+            r = _unwrap(n["c"][1])
+            lit = r.get("v") if r.get("k") == "CXXBoolLiteralExpr" else None
+            if (n.get("op") == "|=" and not stop_value and lit is not False) or \
+                    (n.get("op") == "&=" and stop_value and lit is not True):
+                out.append((n, False))
     return out
 
 
